@@ -47,6 +47,11 @@ THEOREMS = [
     "C15_relabel_pop_first_witness",
     "C15_return_keys",
     "C15_return_skip_nd_witness",
+    "C15_leave",
+    "C15_load_panel",
+    "C15_load_by_label_witness",
+    "C15_item_access",
+    "C15_item_via_getattr_witness",
 ]
 RULE = (
     "seeded random editing histories of a real Workflow (add/remove/re-add/replace children of two node "
@@ -96,10 +101,14 @@ ASSUMPTIONS = [
     "is exactly the stated set, and in such a state the access must raise rather than return something else",
 ]
 
-KINDS = {"F": (["a", "b", "c"], ["o"]), "T": (["i", "s", "u", "b"], ["oi", "os", "ou"])}
+# S: a node in the `x = f(x); return x` idiom: input AND output channel are both called `x` (refs: "tag.x/out")
+KINDS = {"F": (["a", "b", "c"], ["o"]), "T": (["i", "s", "u", "b"], ["oi", "os", "ou"]), "S": (["x", "by"], ["x"])}
 HINTS = {"i": "int", "s": "str", "b": "bool"}  # inputs of kind T only
 PYHINT = {"int": int, "str": str, "bool": bool}
-DEFAULTS = {"F": {"a": "d", "b": "d", "c": "d"}, "T": {"i": 0, "s": "x", "u": None, "b": True}}
+DEFAULTS = {"F": {"a": "d", "b": "d", "c": "d"}, "T": {"i": 0, "s": "x", "u": None, "b": True},
+            "S": {"x": "d", "by": "d"}}
+# plain names that are attributes / methods of the Inputs / Outputs panel classes
+PANEL_ATTRS = ["items", "labels", "fetch", "ready", "connected", "connections"]
 LABELS = ["n0", "n1", "n2", "n3"]
 SIDES = {"in": 0, "out": 1}
 ATTR = {"in": "inputs_map", "out": "outputs_map"}
@@ -120,8 +129,8 @@ def _static(case):
     inst = {}
     nxt = 0
     for op in case["ops"]:
-        if op[0] in ("add", "ext", "replace"):
-            kind, tag = (op[1], op[3]) if op[0] != "replace" else (op[2], op[3])
+        if op[0] in ("add", "ext", "replace", "load"):
+            kind, tag = (op[1], op[3]) if op[0] not in ("replace", "load") else (op[2], op[3])
             if tag in inst:
                 continue
             inst[tag] = {"kind": kind, "base": nxt, "order": len(inst)}
@@ -139,12 +148,18 @@ def _chan_ids(inst, tag):
 def _ref(inst, ref):
     """'tag.chan' -> (id, side) or None"""
     tag, _, lab = ref.partition(".")
+    lab, _, want = lab.partition("/")
     if tag not in inst:
         return None
     for side, l, cid in _chan_ids(inst, tag):
-        if l == lab:
+        if l == lab and want in ("", side):
             return cid, side
     return None
+
+
+def _mkref(inst, tag, lab, side):
+    """the reference of a channel; an output that shares its label with an input says so"""
+    return f"{tag}.{lab}/out" if side == "out" and lab in KINDS[inst[tag]["kind"]][0] else f"{tag}.{lab}"
 
 
 def tok(v):
@@ -304,6 +319,8 @@ class _Sim:
         self.children = []  # (label, tag)
         self.label = {}  # tag -> current label
         self.conn = {}  # id -> set
+        self.dead = set()  # tags whose channel objects are nobody's any more
+        self.saved = {}  # label -> tag that wrote the save file under that label
         self.umap = {"in": None, "out": None}
         self.foreign = {"in": set(), "out": set()}  # detached map objects that exist by now
         self.n = 0
@@ -364,8 +381,10 @@ def _gen_map(rng, sim, side):
         key = rng.choice(scoped) if kq < 0.78 else rng.choice(FUTURE[side]) if kq < 0.93 \
             else rng.choice(["zz__a", "n0__zz", "n9__o"])
         q = rng.random()
-        if q < 0.55:
+        if q < 0.47:
             val = rng.choice(NAMES)
+        elif q < 0.55:
+            val = rng.choice(PANEL_ATTRS)
         elif q < 0.85:
             val = None
         else:
@@ -391,8 +410,10 @@ def _gen_val(rng, sim, side, none=0.4):
     q = rng.random()
     if q < none:
         return None
-    if q < 0.9:
+    if q < 0.82:
         return rng.choice(NAMES)
+    if q < 0.9:
+        return rng.choice(PANEL_ATTRS)
     scoped = [f"{sim.label[t]}__{l}" for t, l, _c in sim.chans(side, sim.child_tags())]
     return rng.choice(scoped) if scoped else rng.choice(NAMES)
 
@@ -472,7 +493,7 @@ def _random_case(rng, tier):
     ops = []
 
     def add(kind=None, label=None):
-        kind = kind or rng.choice(["F", "F", "T"])
+        kind = kind or rng.choice(["F", "F", "F", "T", "T", "S"])
         free = [l for l in LABELS if l not in [c[0] for c in sim.children]]
         if label is None:
             label = rng.choice(free) if free and rng.random() < 0.9 else rng.choice(LABELS)
@@ -514,7 +535,7 @@ def _random_case(rng, tier):
                 label = rng.choice(LABELS)
             ops.append(["remove", label])
         elif r < 0.16:
-            loose = [t for t in sim.inst if t not in ct]
+            loose = [t for t in sim.inst if t not in ct and t not in sim.dead]
             if loose:
                 tag = rng.choice(loose)
                 ops.append(["readd", tag])
@@ -543,7 +564,7 @@ def _random_case(rng, tier):
                 key = next((k for k, v in sp.items() if v == [mine]), None)
                 if key is None or rng.random() < 0.1:
                     key = rng.choice(keys) if keys and rng.random() < 0.7 else rng.choice(["qq", "n0__a", "x"])
-                ops.append(["connectvia", side, key, f"{ot}.{ol}" if side == "in" else f"{it}.{il}"])
+                ops.append(["connectvia", side, key, _mkref(sim.inst, ot, ol, "out") if side == "in" else f"{it}.{il}"])
                 tgt = sp.get(key)
                 if tgt and len(tgt) == 1 and all(len(v) == 1 for v in sp.values()):
                     a, b = tgt[0], other
@@ -554,12 +575,12 @@ def _random_case(rng, tier):
                 if wild and rng.random() < 0.5:
                     ops.append(["connect", how, f"{it}.{il}", f"{rng.choice(ins)[0]}.{il}"])
                 else:
-                    ops.append(["connect", how, f"{it}.{il}", f"{ot}.{ol}"])
+                    ops.append(["connect", how, f"{it}.{il}", _mkref(sim.inst, ot, ol, "out")])
                     sim.conn[ic].add(oc)
                     sim.conn[oc].add(ic)
         elif r < 0.38:
             pairs = [(a, b) for a, bs in sim.conn.items() for b in bs]
-            name = {c: f"{t}.{l}" for s in ("in", "out") for t, l, c in sim.chans(s)}
+            name = {c: _mkref(sim.inst, t, l, s) for s in ("in", "out") for t, l, c in sim.chans(s)}
             if pairs and rng.random() < 0.85:
                 a, b = rng.choice(pairs)
                 sim.conn[a].discard(b)
@@ -571,12 +592,12 @@ def _random_case(rng, tier):
                 sim.conn[a].discard(b)
                 sim.conn[b].discard(a)
         elif r < 0.41:
-            allc = sim.chans("in") + sim.chans("out")
-            t, l, c = rng.choice(allc)
+            allc = [(t, l, c, "in") for t, l, c in sim.chans("in")] + [(t, l, c, "out") for t, l, c in sim.chans("out")]
+            t, l, c, sd_ = rng.choice(allc)
             for o in sim.conn[c]:
                 sim.conn[o].discard(c)
             sim.conn[c] = set()
-            ops.append(["disconnectall", f"{t}.{l}"])
+            ops.append(["disconnectall", _mkref(sim.inst, t, l, sd_)])
         elif r < 0.55:
             side = rng.choice(["in", "in", "out"])
             m = _gen_map(rng, sim, side)
@@ -636,12 +657,12 @@ def _random_case(rng, tier):
             for sd in ("in", "out"):
                 if sim.umap[sd] is not None:
                     sim.foreign[sd].add("stale")
-        elif r < 0.85:
+        elif r < 0.83:
             side = "in" if rng.random() < 0.8 else "out"
             keys = sim.keys(side)
             key = rng.choice(keys) if keys and rng.random() < 0.85 else rng.choice(["qq", "n0__a", "n1__o", "x", "y"])
-            ops.append(["assign", side, key, rng.choice(VALUES)])
-        elif r < 0.925:
+            ops.append(["assign", side, key, rng.choice(VALUES)] + (["item"] if rng.random() < 0.4 else []))
+        elif r < 0.895:
             keys = sim.keys("in")
             kw = {}
             for _ in range(rng.choice([0, 0, 1, 1, 2])):
@@ -654,7 +675,46 @@ def _random_case(rng, tier):
                 ops.append(["run", kw, starters])
             else:
                 ops.append(["run", kw])
-        elif r < 0.955:
+        elif r < 0.91:
+            # a child leaves / moves / joins by PARENT ASSIGNMENT
+            q = rng.random()
+            loose = [t for t in sim.inst if t not in ct and t not in sim.dead]
+            if ct and (q < 0.65 or not loose):
+                label, tag = rng.choice(sim.children)
+                ops.append(["setparent", tag, rng.choice(["none", "none", "other"])])
+                sim.drop(tag)
+            elif loose:
+                tag = rng.choice(loose)
+                ops.append(["setparent", tag, "wf"])
+                if sim.label[tag] not in [c[0] for c in sim.children]:
+                    sim.children.append((sim.label[tag], tag))
+        elif r < 0.935:
+            # a child is saved; some steps later it is loaded back IN PLACE (new channel objects take over)
+            if sim.children:
+                have = [(l, t) for l, t in sim.children if sim.saved.get(l) == t]
+                label, tag = rng.choice(have) if have and rng.random() < 0.6 else rng.choice(sim.children)
+                if sim.saved.get(label) == tag and rng.random() < 0.8 or rng.random() < 0.08:
+                    kind = sim.inst[tag]["kind"]
+                    new = sim.create(kind, label)
+                    ops.append(["load", tag, kind, new])
+                    if sim.saved.get(label) == tag:
+                        old_ids = [c for _s, _l, c in _chan_ids(sim.inst, tag)]
+                        new_ids = [c for _s, _l, c in _chan_ids(sim.inst, new)]
+                        for o, n_ in zip(old_ids, new_ids):
+                            sim.conn[n_] = set(sim.conn[o])
+                            for p_ in sim.conn[o]:
+                                sim.conn[p_].discard(o)
+                                sim.conn[p_].add(n_)
+                            sim.conn[o] = set()
+                        sim.children = [(l, new if t == tag else t) for l, t in sim.children]
+                        sim.saved[label] = new
+                        sim.dead.add(tag)
+                    else:
+                        sim.dead.add(new)
+                else:
+                    ops.append(["save", tag])
+                    sim.saved[label] = tag
+        elif r < 0.96:
             # a pull of a child; sometimes an upstream sibling (or the child itself) raises during it
             if ct:
                 tag = rng.choice(ct)
@@ -737,7 +797,28 @@ def _live_family():
                                    ["medit", "in", mode, [e1, e2]], ["assign", "in", "n0__b", "v"], ["run", {}]]}
 
 
+def _load_family():
+    """a -> b -> c with b in the `x = f(x); return x` idiom (same-named input and output): which links exist, a
+    map over b's channels or not, which child is saved, edited and loaded back in place; then a run"""
+    for cin in (True, False):
+        for cout in (True, False):
+            for target, kind in (("k0", "F"), ("k1", "S"), ("k2", "F")):
+                for maps in (False, True):
+                    ops = [["add", "F", "a", "k0"], ["add", "S", "b", "k1"], ["add", "F", "c", "k2"]]
+                    if cin:
+                        ops.append(["connect", "assign", "k1.x", "k0.o"])
+                    if cout:
+                        ops.append(["connect", "assign", "k2.a", "k1.x/out"])
+                    if maps:
+                        ops += [["map", "in", {"b__x": "bx", "b__by": None}, "dict"], ["map", "out", {"b__x": "items"}, "dict"]]
+                    ops += [["run", {"a__a": 1}], ["save", target], ["assign", "in", "a__b", 7],
+                            ["load", target, kind, "k3"], ["run", {"a__a": 2}]]
+                    yield {"ops": ops}
+
+
 def gen_cases(rng, tier):
+    for c in _load_family():
+        yield c
     fam = list(_exhaustive_family())
     live = list(_live_family())
     if tier == "quick":
@@ -822,6 +903,25 @@ def corpus():
                    ["map", "out", {"n0__o": "yes", "n1__o": "no"}, "dict"], ["run", {"n0__a": 10}, ["k0"]],
                    ["run", {}, ["k1"]], ["map", "out", {"n0__o": None}, "dict"], ["run", {"n1__a": 20}, ["k1"]],
                    ["run", {}]]}
+
+    # a wired child leaves by `child.parent = None`, another moves to a second workflow and comes back: the
+    # former siblings' channels re-open, the workflow runs without them
+    yield {"ops": [["add", "F", "a", "k0"], ["add", "F", "b", "k1"], ["add", "F", "c", "k2"],
+                   ["connect", "assign", "k1.a", "k0.o"], ["connect", "assign", "k2.a", "k1.o"],
+                   ["setparent", "k1", "none"], ["run", {"c__a": 1}], ["setparent", "k2", "other"],
+                   ["setparent", "k1", "wf"], ["setparent", "k2", "wf"], ["connect", "assign", "k2.b", "k0.o"],
+                   ["setparent", "k0", "other"], ["run", {}]]}
+    # a node with a same-named input and output, wired on both sides, saved, edited, loaded back in place
+    yield {"ops": [["add", "F", "a", "k0"], ["add", "S", "b", "k1"], ["add", "F", "c", "k2"],
+                   ["connect", "assign", "k1.x", "k0.o"], ["connect", "assign", "k2.a", "k1.x/out"], ["run", {"a__a": 1}],
+                   ["save", "k1"], ["assign", "in", "b__by", 7], ["load", "k1", "S", "k3"], ["run", {"a__a": 2}],
+                   ["load", "k2", "F", "k4"], ["save", "k0"], ["load", "k0", "F", "k5"], ["run", {}]]}
+    # maps that strip the node prefix onto names the panel classes have as attributes / methods
+    yield {"ops": [["add", "F", "n0", "k0"], ["add", "F", "n1", "k1"], ["connect", "assign", "k1.a", "k0.o"],
+                   ["map", "in", {"n0__a": "items", "n0__b": "labels", "n1__b": "fetch", "n0__c": "ready"}, "dict"],
+                   ["map", "out", {"n1__o": "connected", "n0__o": "connections"}, "dict"],
+                   ["assign", "in", "items", 5, "item"], ["assign", "in", "labels", 6], ["run", {"fetch": 3}],
+                   ["replace", "n0", "F", "k2"], ["run", {"items": 1}]]}
 
     # KF-C15-1: a connected channel exposed through the map, then replace_child. README_REPLACE is the
     # README's own example (raises RecursionError; the state it ends in depends on the stack depth),
@@ -908,10 +1008,11 @@ def run_impl(case):
     from bidict import bidict
     from pyiron_workflow import Workflow
 
-    from . import nodes
+    from . import nodes, nodes_c15
 
     nodes.reset()
     inst = _static(case)
+    saved = {}  # label -> tag whose state is in the save file under that label
     ctor = case["ops"][0] if case["ops"] and case["ops"][0][0] == "ctor" else None
     ctor_exc = None
     ctor_objs = {}
@@ -934,7 +1035,8 @@ def run_impl(case):
     index = {}  # id(channel object) -> id
 
     def create(kind, label, tag):
-        n = nodes.term_node(inst[tag]["order"] % nodes.N_TERM, label=label) if kind == "F" else nodes.Typed(label=label)
+        n = nodes.term_node(inst[tag]["order"] % nodes.N_TERM, label=label) if kind == "F" \
+            else nodes.Typed(label=label) if kind == "T" else nodes_c15.Same(label=label)
         node[tag] = n
         chs = [n.inputs[l] for l in KINDS[kind][0]] + [n.outputs[l] for l in KINDS[kind][1]]
         assert [l for l, _c in n.inputs.items()] == KINDS[kind][0], "layout drift"
@@ -957,6 +1059,15 @@ def run_impl(case):
             out = []
             for k, ch in p.items():
                 cid = index.get(id(ch), -1)
+                # "they are the child channels themselves": by item always, by attribute unless the panel
+                # class has an attribute of that name (python finds that first)
+                try:
+                    if p[k] is not ch:
+                        cid = f"{cid}!item"
+                    elif not hasattr(type(p), k) and getattr(p, k) is not ch:
+                        cid = f"{cid}!attr"
+                except Exception as e:  # noqa: BLE001
+                    cid = f"{cid}!item:{type(e).__name__}"
                 # which child's channel IS it
                 name = "?"
                 for lab, child in wf.children.items():
@@ -1006,8 +1117,8 @@ def run_impl(case):
             "op": op, "res": res, "ret": ret, "info": info or {},
             "children": [(lab, tag_of.get(id(ch), "?")) for lab, ch in wf.children.items()],
             "labels": [(lab, ch.label if isinstance(ch.label, str) else repr(ch.label)) for lab, ch in wf.children.items()],
-            "conns": [[index.get(id(c), -1) for c in ch.connections] for ch in obj],
-            "vals": [tok(ch.value) for ch in obj],
+            "conns": [[] if ch is None else [index.get(id(c), -1) for c in ch.connections] for ch in obj],
+            "vals": ["ND" if ch is None else tok(ch.value) for ch in obj],
             "panel": {"in": panel("in"), "out": panel("out")},
             "maps": {"in": getmap("in"), "out": getmap("out")},
             # the detached map objects the user still holds, as they are (no getter involved)
@@ -1047,6 +1158,7 @@ def run_impl(case):
                     res = "skip"
                 else:
                     info["label"] = n.label
+                    info["owned"] = n.parent is not None  # a child of the second workflow: add_child refuses it
                     wf.add_child(n)
             elif what == "connect":
                 a, b = chan(op[2]), chan(op[3])
@@ -1150,7 +1262,49 @@ def run_impl(case):
                     index.clear()
                     index.update({id(ch): i for i, ch in enumerate(obj)})
             elif what == "assign":
-                setattr(wf.inputs if op[1] == "in" else wf.outputs, op[2], _tup(op[3]))
+                if len(op) > 4:
+                    (wf.inputs if op[1] == "in" else wf.outputs)[op[2]] = _tup(op[3])
+                else:
+                    setattr(wf.inputs if op[1] == "in" else wf.outputs, op[2], _tup(op[3]))
+            elif what == "setparent":
+                n = node.get(op[1])
+                if n is None or (op[2] in ("none", "other")) != (n.parent is wf):
+                    res = "skip"
+                else:
+                    info["label"] = n.label
+                    if op[2] == "other" and not other:
+                        other.append(Workflow("w2", autoload=None))
+                    n.parent = None if op[2] == "none" else other[0] if op[2] == "other" else wf
+            elif what == "save":
+                n = node.get(op[1])
+                if n is None or n.parent is not wf:
+                    res = "skip"
+                else:
+                    n.save()
+                    saved[n.label] = op[1]
+            elif what == "load":
+                n = node.get(op[1])
+                ok = False
+                if n is None or n.parent is not wf or op[3] in node or saved.get(n.label, op[1]) != op[1]:
+                    res = "skip"
+                else:
+                    info["label"] = n.label
+                    try:
+                        n.load()
+                        ok = True
+                    except Exception as e:  # noqa: BLE001
+                        res = "exc:" + type(e).__name__
+                assert len(obj) == inst[op[3]]["base"], "id drift"
+                if ok:
+                    kind = op[2]
+                    for ch in [n.inputs[l] for l in KINDS[kind][0]] + [n.outputs[l] for l in KINDS[kind][1]]:
+                        index[id(ch)] = len(obj)
+                        obj.append(ch)
+                    node[op[3]] = node.pop(op[1])
+                    saved[n.label] = op[3]
+                else:
+                    obj.extend([None] * _nchan(op[2]))  # these channels never came to be; the ids stay dense
+                    info["stillborn"] = True
             elif what == "pull":
                 n = node.get(op[1])
                 if n is None or n.parent is not wf:
@@ -1324,6 +1478,8 @@ def model_input(case, impl=None):
                 created.add(op[3])
                 lines += _init_lines(inst, op[3])
                 lines.append("q " + _decl(inst, op[3], f"r_{op[3]}", "ext"))
+            if what == "load" and st["info"].get("stillborn"):
+                lines.append("q " + _decl(inst, op[3], f"dead_{op[3]}", "ext"))
             prev_vals = st["vals"]
             continue
         if what in ("add", "ext"):
@@ -1333,7 +1489,10 @@ def model_input(case, impl=None):
         elif what == "remove":
             lines.append(f"remove {op[1]}")
         elif what == "readd":
-            lines.append(_decl(inst, op[1], st["info"]["label"]))
+            if st["info"].get("owned"):
+                lines.append(f"echo {res}")  # "already belongs to the parent …": nothing changes
+            else:
+                lines.append(_decl(inst, op[1], st["info"]["label"]))
         elif what == "connect":
             lines.append(f"connect {_ref(inst, op[2])[0]} {_ref(inst, op[3])[0]}")
         elif what == "connectvia":
@@ -1364,6 +1523,26 @@ def model_input(case, impl=None):
                 if op[1] or prev_vals is None or c >= len(prev_vals) or prev_vals[c] != v:
                     lines.append(f"q val {c} {v}")
             lines.append(f"run {res}")
+        elif what == "setparent":
+            if res != "ok":
+                lines.append(f"echo {res}")
+            elif op[2] == "wf":
+                lines.append(_decl(inst, op[1], st["info"]["label"]))
+            else:
+                lines.append(f"remove {st['info']['label']}")  # leaving is leaving, by whatever route
+        elif what == "save":
+            lines.append(f"echo {res}")  # writes a file, changes nothing
+        elif what == "load":
+            if st["info"].get("stillborn"):
+                lines.append("q " + _decl(inst, op[3], f"dead_{op[3]}", "ext"))
+                lines.append(f"echo {res}")
+            else:
+                # the stored VALUES come back (observed, fed); the structure is the model's own
+                created.add(op[3])
+                lines += _init_lines(inst, op[3])
+                for c, v in enumerate(st["vals"]):
+                    lines.append(f"q val {c} {v}")
+                lines.append(_decl(inst, op[3], st["info"]["label"], "loadchild"))
         elif what == "pull":
             for c, v in enumerate(st["vals"]):
                 if prev_vals is None or c >= len(prev_vals) or prev_vals[c] != v:
@@ -1503,6 +1682,25 @@ def oracle(case, r):
             if seen != umap[side]:
                 fails.append(_f("map-content", k, op, f"{side}: the map reads {seen}, the user asked for "
                                                       f"{umap[side]}", side=side))
+
+        # ---- "they are the child channels themselves": access by item (and by attribute where python lets the
+        # panel answer) gives the very object the iteration gives
+        for side in ("in", "out"):
+            if not isinstance(st["panel"][side], str):
+                bad = [(key, cid) for key, cid, _n in st["panel"][side] if isinstance(cid, str)]
+                if bad:
+                    fails.append(_f("identity-by-item" if "!item" in bad[0][1] else "identity-by-attribute", k, op,
+                                    f"{side}: {bad}", side=side))
+        # ---- a node that left (remove_child, child.parent = None, child.parent = another workflow) has let go
+        # of the children that stay: their channels are open again
+        if op[0] in ("remove", "setparent") and res == "ok" and prev is not None and not (op[0] == "setparent" and op[2] == "wf"):
+            gone = [t for _l, t in prev["children"] if t not in [t2 for _l2, t2 in st["children"]] and t in inst]
+            stay = {c for _l, t in st["children"] if t in inst for _s, _cl, c in _chan_ids(inst, t)}
+            for t in gone:
+                wired = [(c, [x for x in st["conns"][c] if x in stay]) for _s, _cl, c in _chan_ids(inst, t)]
+                wired = [(c, l) for c, l in wired if l]
+                if wired:
+                    fails.append(_f("left-child-still-wired", k, op, f"{t}: {wired}"))
 
         # ---- a child is labelled as the workflow holds it (`child-label__channel-label`)
         for lab, actual in st.get("labels", []):
